@@ -190,10 +190,31 @@ TEXT["C17"] = {
     "note": "MemoryPool / sieve array / sieving-prime vector bytes are measured, not derived in Lean. " + _TRUST,
     "technique": "Lean 4 proof of history-independent chunk-length bounds and release bookkeeping + measured heap ledger against an explicit bound"}
 
+TEXT["C16"] = {
+    "text": "Proof (Lean 4): the model of calculator.hpp's ExpressionParser<uint64_t> (operator stack, precedence table, "
+            "checkedAdd/Sub/Mul/Div/Mod/Shift as written, pow by squaring, hex/decimal literals, unary + - ~) REFINES the same "
+            "parser over unbounded integers: every accepted string has the same value there and that value is in [0, 2^64) "
+            "- so a value or intermediate result outside the range is rejected, never reinterpreted (simulation by mutual "
+            "induction over the three parser functions, all strings). checkedAdd/Sub/Mul are proved exact-or-overflow at "
+            "every type with min <= 0 <= max (uint64_t, int, int64_t; all four sign cases of the truncating-division test). "
+            "Over the model of CmdOptions.cpp/main.cpp, for EVERY argv: the interval sieved and the (n, start) passed to "
+            "nth_prime are < 2^64, n*20 fits int64, an accepted -d appends exactly START+DIST without wrap, bare negative "
+            "numbers and a second main option are rejected. The operator table (13 rows), calculate() switch, the source text "
+            "of the checked arithmetic, the 30-entry option table, both dispatch switches, both overflow guards and the "
+            "element type of every getValue<T> site are REGENERATED from the sources on every run and checked by decide/rfl. "
+            "Tie: calc stream (grammar-directed ASTs rendered with minimal parentheses, exact big-integer oracle on the AST, "
+            "2^64/2^31/2^63 boundaries, malformed and mutated strings; model = implementation on value / error class) and cli "
+            "stream (the real binary, sanitized build: stdout and exit status vs in-process library calls for the intended "
+            "interval/kinds and vs the Lean model; rejected command lines; nth prime incl. failures).",
+    "design_ref": "DESIGN.md section 8 C16",
+    "note": _COUNT + " 'Same answers as the library' is tied by the cli stream, not proved about main.cpp's printing code; "
+            "informational options (--help, --version, --cpu-info, --test, -S, -R) are modelled only by exit status.",
+    "technique": "Lean 4 refinement proof (bounded parser -> exact-integer parser, all strings), exactness of checked arithmetic, regenerated grammar/dispatch facts + correspondence on the real binary"}
+
 NOT_APPLICABLE = [
     {"property_id": "C18",
      "reason": "|R(x)-pi(x)| < sqrt(x) on [2,2^64) is an RH-strength statement about pi(x) evaluated in x87 long double; "
                "Lean/Mathlib can neither state the float semantics nor prove the bound; see DESIGN.md section 8 C18"},
 ]
-for _p in [x for x in ["C12", "C16"] if x not in TEXT]:
+for _p in [x for x in ["C12"] if x not in TEXT]:
     NOT_APPLICABLE.append({"property_id": _p, "reason": "not claimed yet: model/theorems under construction (will be claimed once its check exists)"})
